@@ -424,8 +424,12 @@ func (g *gen) node(depth int) Node {
 				n.Kids = g.nodes(depth-1, 3)
 			}
 		} else {
-			n.Callee = rapid.SampledFrom([]string{"param", "param", "card", "box", "index0", "index1", "flush", "flush"}).Draw(g.t, "callee")
+			n.Callee = rapid.SampledFrom([]string{"param", "param", "card", "box", "index0", "index1", "flush", "flush", "capture"}).Draw(g.t, "callee")
 			switch n.Callee {
+			case "capture":
+				// a hand-written component that renders its block into a buffer of its own
+				n.HasBlock = true
+				n.Kids = g.nodes(depth-1, 3)
 			case "flush":
 				// templ.Flush renders its block in place (and flushes the writer afterwards)
 				n.HasBlock = true
